@@ -84,7 +84,7 @@ func genInitialEntries(t *rapid.T, names []string, o textOpts, max int) []Entry 
 func genC01(t *rapid.T) c01Case {
 	col := getCollector("C01", "TestC01_Replay")
 	ntests := rapid.IntRange(1, 4).Draw(t, "ntests")
-	names := genNamePool(t, ntests+2) // two extra names only appear in pre-existing entries
+	names := withOtherRunners(t, genNamePool(t, ntests+2)) // two extra names only appear in pre-existing entries
 	o := textOpts{escapeToken: true, headerLike: true, names: names, long: true}
 	c := c01Case{Cfgs: []CfgSpec{{Dir: "snaps", Filename: "f"}}}
 	if rapid.IntRange(0, 4).Draw(t, "secondfile") == 0 {
